@@ -545,7 +545,7 @@ func runTime(o *hx.Out, d seqDesc, origin string) {
 		var got []uint64
 		errd := false
 		if guard(func() {
-			r, err := tsm1.TimeArrayDecodeAll(b, nil)
+			r, err := tsm1.TimeArrayDecodeAll(b, dirtyI64())
 			got, errd = u64s(r), err != nil
 		}) {
 			errd = true
@@ -658,10 +658,10 @@ func runInt(o *hx.Out, d seqDesc, origin string) {
 		errd := false
 		if guard(func() {
 			if d.Uns {
-				r, err := tsm1.UnsignedArrayDecodeAll(b, nil)
+				r, err := tsm1.UnsignedArrayDecodeAll(b, dirtyU64())
 				got, errd = append([]uint64(nil), r...), err != nil
 			} else {
-				r, err := tsm1.IntegerArrayDecodeAll(b, nil)
+				r, err := tsm1.IntegerArrayDecodeAll(b, dirtyI64())
 				got, errd = u64s(r), err != nil
 			}
 		}) {
@@ -785,7 +785,7 @@ func runBool(o *hx.Out, d boolDesc, origin string) {
 		var got []bool
 		errd := false
 		if guard(func() {
-			r, err := tsm1.BooleanArrayDecodeAll(b, nil)
+			r, err := tsm1.BooleanArrayDecodeAll(b, dirtyBool())
 			got, errd = r, err != nil
 		}) {
 			errd = true
@@ -916,7 +916,7 @@ func runStr(o *hx.Out, d strDesc, origin string) {
 		var got []string
 		errd := false
 		if guard(func() {
-			r, err := tsm1.StringArrayDecodeAll(b, nil)
+			r, err := tsm1.StringArrayDecodeAll(b, dirtyStr())
 			got, errd = r, err != nil
 		}) {
 			errd = true
@@ -1114,7 +1114,7 @@ func runFloat(o *hx.Out, d seqDesc, origin string) {
 		var got []uint64
 		errd := false
 		if guard(func() {
-			r, err := tsm1.FloatArrayDecodeAll(b, nil)
+			r, err := tsm1.FloatArrayDecodeAll(b, dirtyF64())
 			for _, x := range r {
 				got = append(got, math.Float64bits(x))
 			}
@@ -1219,28 +1219,28 @@ func runBlock(o *hx.Out, d blockDesc, origin string) {
 			ok := false
 			switch d.Typ {
 			case "int":
-				a := &tsdb.IntegerArray{}
+				a := &tsdb.IntegerArray{Timestamps: dirtyI64(), Values: dirtyI64()}
 				err := tsm1.DecodeIntegerArrayBlock(block, a)
 				ok = err == nil && len(a.Timestamps) == n && len(a.Values) == n
 				for i := 0; ok && i < n; i++ {
 					ok = same(a.Timestamps[i], a.Values[i], i)
 				}
 			case "uns":
-				a := &tsdb.UnsignedArray{}
+				a := &tsdb.UnsignedArray{Timestamps: dirtyI64(), Values: dirtyU64()}
 				err := tsm1.DecodeUnsignedArrayBlock(block, a)
 				ok = err == nil && len(a.Timestamps) == n && len(a.Values) == n
 				for i := 0; ok && i < n; i++ {
 					ok = same(a.Timestamps[i], a.Values[i], i)
 				}
 			case "float":
-				a := &tsdb.FloatArray{}
+				a := &tsdb.FloatArray{Timestamps: dirtyI64(), Values: dirtyF64()}
 				err := tsm1.DecodeFloatArrayBlock(block, a)
 				ok = err == nil && len(a.Timestamps) == n && len(a.Values) == n
 				for i := 0; ok && i < n; i++ {
 					ok = same(a.Timestamps[i], a.Values[i], i)
 				}
 			default:
-				a := &tsdb.BooleanArray{}
+				a := &tsdb.BooleanArray{Timestamps: dirtyI64(), Values: dirtyBool()}
 				err := tsm1.DecodeBooleanArrayBlock(block, a)
 				ok = err == nil && len(a.Timestamps) == n && len(a.Values) == n
 				for i := 0; ok && i < n; i++ {
@@ -2514,4 +2514,46 @@ func main() {
 			}
 		}
 	}
+}
+
+
+// The batch decoders and Decode<T>ArrayBlock take a destination the caller REUSES (the array
+// cursors keep one tsdb.<T>Array for all blocks): what it held before must not show through.
+// Every call gets a destination of generous length filled with values no test data uses.
+const dirtyLen = 1500
+
+func dirtyI64() []int64 {
+	d := make([]int64, dirtyLen)
+	for i := range d {
+		d[i] = -0x0123456789abcdef
+	}
+	return d
+}
+func dirtyU64() []uint64 {
+	d := make([]uint64, dirtyLen)
+	for i := range d {
+		d[i] = 0xfedcba9876543210
+	}
+	return d
+}
+func dirtyF64() []float64 {
+	d := make([]float64, dirtyLen)
+	for i := range d {
+		d[i] = -7.25e300
+	}
+	return d
+}
+func dirtyBool() []bool {
+	d := make([]bool, dirtyLen)
+	for i := range d {
+		d[i] = true
+	}
+	return d
+}
+func dirtyStr() []string {
+	d := make([]string, dirtyLen)
+	for i := range d {
+		d[i] = "stale"
+	}
+	return d
 }
